@@ -57,6 +57,22 @@ SCHEMA.update({
     'MLLPServer.timeout': 'any',
 })
 
+SCHEMA.update({
+    # tuple-shaped records of the structure tables (immutable): a reference is ('sequence'|'choice'|'leaf', children
+    # [, datatype, long name, table, max length]); a child entry is (name, reference, (min, max), 'SEG'|'GRP'|'FIE'|'CMP')
+    'RefStruct.kind': 'str',
+    'RefStruct.children': 'tuple[ChildEntry,...]',
+    'RefStruct.datatype': 'str?',
+    'RefStruct.longname': 'str?',
+    'RefStruct.table': 'str?',
+    'RefStruct.maxlen': 'int',
+    'RefStruct._len': 'int',
+    'ChildEntry.name': 'str',
+    'ChildEntry.ref': 'RefStruct?',
+    'ChildEntry.card': 'tuple[int,int]',
+    'ChildEntry.kind': 'str',
+})
+
 GLOBALS.update({
     'hl7apy:_DEFAULT_VERSION': 'str',
     'hl7apy:_DEFAULT_VALIDATION_LEVEL': 'int',
